@@ -8,6 +8,7 @@ package symgo
 
 import (
 	"fmt"
+	"os"
 	"go/token"
 	"go/types"
 
@@ -179,7 +180,56 @@ func (s *scheduler) yield(fr *frame, ready func() bool) {
 	g.ready = nil
 }
 
+// yieldToOthers hands the baton to some other runnable goroutine (the caller stays
+// runnable and continues when it is chosen again).
+func (s *scheduler) yieldToOthers(fr *frame) {
+	g := s.cur
+	var rs []*goroutine
+	for _, r := range s.runnable() {
+		if r != g {
+			rs = append(rs, r)
+		}
+	}
+	if len(rs) == 0 {
+		return
+	}
+	next := rs[s.i.p.choice(len(rs))]
+	g.ready = always
+	s.switches++
+	saved := s.i.cur
+	s.cur = next
+	next.wake <- struct{}{}
+	<-g.wake
+	s.i.cur = saved
+	if s.killing {
+		panic(goexit{})
+	}
+	if s.fatal != nil && g.main {
+		f := s.fatal
+		s.fatal = nil
+		if _, ok := f.(deadlock); ok {
+			// the others are all blocked: fine for vxRunAll, main simply continues
+			g.ready = nil
+			return
+		}
+		panic(f)
+	}
+	g.ready = nil
+}
+
 func (s *scheduler) reportDeadlock() {
+	if os.Getenv("VX_DEBUG") != "" {
+		for _, g := range s.gs {
+			w := ""
+			if g.frame != nil {
+				saved := s.i.cur
+				s.i.cur = g.frame
+				w = s.i.where()
+				s.i.cur = saved
+			}
+			fmt.Fprintf(os.Stderr, "DEADLOCK g%d main=%v done=%v cur=%v blocked%s\n", g.id, g.main, g.done, g == s.cur, w)
+		}
+	}
 	// recorded as a failed assertion so that harnesses claiming "never hangs" see it
 	s.i.p.assertCond(tFalse, "engine/no-deadlock")
 	panic(pathEnd{})
